@@ -117,6 +117,7 @@ type exec struct {
 	next0    *smt.Term
 	monitor  *monitorInfo
 	isInit   bool
+	behScope map[string]*scope
 }
 
 // VerifyFunc generates the proof obligations of one function under contract.
@@ -201,6 +202,18 @@ func (x *exec) run() {
 		v := x.freshInput(st, "ghost_"+g.Name, t)
 		x.entry.vars[g.Name] = ev.FromVal(v, t)
 	}
+	// ghost (universally quantified) parameters of behaviours
+	x.behScope = map[string]*scope{}
+	for _, b := range x.c.C.Behaviors {
+		sc := x.entry.push()
+		for _, g := range b.Ghost {
+			ev := x.evalAt(st, nil)
+			t := ev.ResolveType(g.Type)
+			v := x.freshInput(st, "ghost_"+b.Name+"_"+g.Name, t)
+			sc.vars[g.Name] = ev.FromVal(v, t)
+		}
+		x.behScope[b.Name] = sc
+	}
 	x.setupMonitor(st)
 	x.old = st.heapSnapshot()
 	// preconditions
@@ -215,7 +228,24 @@ func (x *exec) run() {
 	x.res.Queries = append(x.res.Queries, &Query{Func: x.res.Key, Ob: x.obName("cover.requires"), Kind: "cover", Cover: true,
 		Hyps: append([]*smt.Term{}, st.pc...), HypLabs: append([]string{}, st.pcLab...), Goal: smt.False,
 		Pos: x.p.Fset.Position(fn.Pos()), Desc: "precondition is satisfiable"})
-	x.block(st, fn.Blocks[0], nil)
+	// proof by cases requested by the contract: one run per truth assignment
+	states := []*pstate{st}
+	for _, cs := range x.c.C.Cases {
+		var next []*pstate
+		for _, s := range states {
+			ev := x.evalAt(s, x.entry)
+			ev.Pos = cs.Pos
+			t := ev.Bool(cs.E)
+			s2 := s.fork()
+			s.assume(t, "case "+cs.Text)
+			s2.assume(smt.Not(t), "case not "+cs.Text)
+			next = append(next, s, s2)
+		}
+		states = next
+	}
+	for _, s := range states {
+		x.block(s, fn.Blocks[0], nil)
+	}
 	x.res.Paths = x.pathNo
 	x.res.Loops = len(x.loopOrd)
 }
@@ -250,7 +280,7 @@ func (x *exec) paramNames() []string {
 // freshInput creates a symbolic input of type t with its type invariant.
 func (x *exec) freshInput(st *pstate, name string, t types.Type) Val {
 	s := x.p.T.SortOf(t)
-	c := smt.Const("in$"+sanitize(name), s)
+	c := flatConst("in$"+sanitize(name), s)
 	st.assume(x.p.T.Inv(c, t, 0), "type invariant of "+name)
 	x.inputs = append(x.inputs, NamedTerm{Name: name, T: c, Type: t.String()})
 	x.assumeAllocated(st, c, t)
@@ -490,7 +520,7 @@ func (x *exec) assignHeaps(w *writeSet, c *Contract, callee *ssa.Function, a spe
 			}
 		}
 	case *spec.Call:
-		if id, ok := a.Fun.(*spec.Ident); ok && (id.Name == "spare" || id.Name == "content") && len(a.Args) == 1 {
+		if id, ok := a.Fun.(*spec.Ident); ok && (id.Name == "spare" || id.Name == "content" || id.Name == "backing") && len(a.Args) == 1 {
 			if t := x.typeOfSpec(c, callee, a.Args[0]); t != nil {
 				if st, ok := t.Underlying().(*types.Slice); ok {
 					w.arr(x, st.Elem())
